@@ -1748,6 +1748,12 @@ class Pool:
         if timeout_handler is not None:
             timeout_handler.terminate()
 
+        # Wait for the supervisor to exit before terminating workers: a
+        # worker it is just starting would otherwise be missed by the loop
+        # below (not started yet) and then joined for ever.
+        debug('joining worker handler')
+        stop_if_not_current(worker_handler)
+
         # Terminate workers which haven't already finished
         if pool and hasattr(pool[0], 'terminate'):
             debug('terminating workers')
